@@ -46,7 +46,8 @@ def case_read(arg):
     cfg = item['cfg']
     from PseudoNetCDF.noaafiles._arl import arlpackedbit
     tmp = scratch('arl')
-    tr = {'tid': tid, 'cfg': cfg, 'res': 'ok', 'exc': '', 'nbytes': 0,
+    tr = {'tid': tid, 'kind': 'file', 'cfg': cfg, 'res': 'ok', 'exc': '',
+          'nbytes': 0,
           'dims': {'time': -1, 'z': -1, 'y': -1, 'x': -1}, 'names': [],
           'sfclvl': -1, 'levels': [], 'reftime': [], 'hours': [], 'vars': []}
     try:
@@ -103,6 +104,33 @@ def case_read(arg):
         shutil.rmtree(tmp, ignore_errors=True)
 
 
+def case_leveltext(arg):
+    """The index-record writer's level texts: getvgtxts, and
+    readvardef(writevardef(...))."""
+    import warnings
+    warnings.simplefilter('ignore')
+    tid, v5 = arg
+    from PseudoNetCDF.noaafiles._arl import getvgtxts, writevardef, readvardef
+    tr = {'tid': tid, 'kind': 'lvltxt', 'cfg': {}, 'v5': v5, 'res': 'ok',
+          'exc': '', 'txt': [], 'back': []}
+    try:
+        lv = [x / 100000. for x in v5]
+        tr['txt'] = [list(t) for t in getvgtxts(lv)]
+        keys = {x: [b'TEMP'] for x in lv}
+        sums = {(x, b'TEMP'): 7 for x in lv}
+        text = writevardef(lv, keys, sums)
+        out = {}
+        readvardef(np.bytes_(text.encode('ascii')), out)
+        got = [float(x) for x in out['vglvls']] if 'vglvls' in out else []
+        tr['back'] = [int(round(x * 100000)) for x in got]
+    except Exception as ex:
+        tr['res'] = 'raised'
+        tr['exc'] = '%s: %s' % (type(ex).__name__, str(ex)[:100])
+        tr['txt'] = [[] for _ in v5]
+        tr['back'] = [-1 for _ in v5]
+    return tr
+
+
 def run_arl_files(out, tier):
     scale = 'quick' if tier == 'quick' else 'full'
     # two runs side by side: the small grids, and the grids with 1000 or more
@@ -132,6 +160,32 @@ def run_arl_files(out, tier):
         if '_crash' in t or '_hang' in t:
             raise Machinery('ARL file case failed: %r' % (t,))
     out.cov['arl_files_read'] = len(res)
+    # level texts of the index record (sigma levels with up to five decimals,
+    # pressure levels, heights)
+    import random as _r
+    rnd = _r.Random(len(items))
+    sets = [[100000, 99875, 98125, 50000, 25], [0, 100000000, 92500000, 5000000],
+            [99999, 12345, 1, 999990, 1000000, 9999900]]
+    for i in range(20 if tier == 'quick' else 200):
+        s_ = []
+        for k in range(rnd.randint(2, 5)):
+            nd = rnd.randint(0, 4)
+            if nd == 0:
+                s_.append(rnd.randint(0, 99999))
+            else:
+                dec = 5 - nd
+                ip = rnd.randint(10 ** (nd - 1), 10 ** nd - 1)
+                fr = rnd.randint(0, 10 ** dec - 1) * 10 ** (5 - dec)
+                s_.append(ip * 100000 + fr)
+        sets.append(sorted(set(s_), reverse=True))
+    lres = run_cases(case_leveltext,
+                     [(750000 + i, s_) for i, s_ in enumerate(sets)],
+                     timeout=60, per_child=10)
+    for t in lres:
+        if '_crash' in t or '_hang' in t:
+            raise Machinery('ARL level text case failed: %r' % (t,))
+    res = res + lres
+    out.cov['arl_level_text_cases'] = len(lres)
     verdicts = validate_traces('Arl_Trace', res, out, shard=3,
                                label='ARL files', timeout=3000)
     settle(out, res, verdicts, None)
